@@ -96,91 +96,115 @@ abbrev W := World CAct Chain
 
 /-! ## the stages -/
 
+/-- change the runner's / test case's own state only -/
+def updU (f : Chain → Chain) (w : W) : W := { w with u := f w.u }
+
+def Chain.side (s : Side) (c : Chain) : Chain :=
+  match s with
+  | .junk _ => c
+  | .logerr => { c with logged := c.logged + 1 }
+  | .dropfailed => { c with dropped := c.dropped + 1 }
+  | .flush => { c with logged := 0 }
+  | .expect => { c with forced := true }
+
 def doSide (s : Side) (w : W) : W :=
   match s with
   | .junk d => schedule (w.now + d) (.user 0 .noop) w
-  | .logerr => { w with u := { w.u with logged := w.u.logged + 1 } }
-  | .dropfailed => { w with u := { w.u with dropped := w.u.dropped + 1 } }
-  | .flush => { w with u := { w.u with logged := 0 } }
-  | .expect => { w with u := { w.u with forced := true } }
+  | s => updU (Chain.side s) w
 
 /-- `_got_user_exception` from a main stage (errback of `_run_user`) followed by `fails.append` -/
-def caught (k : Exc) (w : W) : W :=
-  { w with u := { w.u with excs := w.u.excs ++ [k], fails := true } }
+def Chain.caught (k : Exc) (c : Chain) : Chain := { c with excs := c.excs ++ [k], fails := true }
+
+def Chain.log (name : SName) (now : Nat) (c : Chain) : Chain :=
+  { c with stages := c.stages ++ [(name, now, c.observers.length)] }
 
 inductive Status | completed (r : Option Exc) | pending
 deriving Repr
 
+/-- what calling the stage function yields once its side effects are done -/
+def statusOf : Beh → Status
+  | .ret => .completed none
+  | .raise k => .completed (some k)
+  | _ => .pending
+
 /-- call a stage function: log it, side effects, then its behaviour -/
-def launch (name : SName) (st : Stage) (w : W) : W × Status :=
-  let w : W := { w with u := { w.u with stages := w.u.stages ++ [(name, w.now, w.u.observers.length)] } }
+def launch (name : SName) (st : Stage) (w : W) : W :=
+  let w := updU (Chain.log name w.now) w
   let w := st.sides.foldl (fun w s => doSide s w) w
   match st.beh with
-  | .ret => (w, .completed none)
-  | .raise k => (w, .completed (some k))
-  | .fire d => (schedule (w.now + d) (.user 0 (.stageDone none)) w, .pending)
-  | .failD d k => (schedule (w.now + d) (.user 0 (.stageDone (some k))) w, .pending)
-  | .never => (w, .pending)
+  | .fire d => schedule (w.now + d) (.user 0 (.stageDone none)) w
+  | .failD d k => schedule (w.now + d) (.user 0 (.stageDone (some k))) w
+  | _ => w
+
+/-- `clean_up_done` and `force_failure` -/
+def Chain.finish (c : Chain) : Chain :=
+  let c := match c.lastExc with
+    | some k => { c with excs := c.excs ++ [k], fails := true }
+    | none => c
+  let c := if c.forced then { c with excs := c.excs ++ [.fail], fails := true } else c
+  { c with pos := .done }
 
 /-- the end of the chain: `clean_up_done`, `force_failure`, `lambda: len(fails) == 0`; the final Deferred fires
 and the spinner's callbacks run -/
 def finishChain (w : W) : W :=
-  let w : W := match w.u.lastExc with
-    | some k => { w with u := { w.u with excs := w.u.excs ++ [k], fails := true } }
-    | none => w
-  let w : W := if w.u.forced then { w with u := { w.u with excs := w.u.excs ++ [.fail], fails := true } } else w
-  deliver (.value (if w.u.fails then 0 else 1)) { w with u := { w.u with pos := .done } }
+  let w := updU Chain.finish w
+  deliver (.value (if w.u.fails then 0 else 1)) w
+
+def Chain.noteCleanup (r : Option Exc) (c : Chain) : Chain :=
+  match r with
+  | some k => { c with lastExc := some k }
+  | none => c
 
 /-- `_run_cleanups`: pop and run; an exception is only remembered (the last one wins) -/
 def runCleanups : List (Nat × Stage) → W → W
-  | [], w => finishChain { w with u := { w.u with stack := [] } }
+  | [], w => finishChain (updU (fun c => { c with stack := [] }) w)
   | (i, c) :: rest, w =>
-    match launch (.cleanup i) c { w with u := { w.u with stack := rest } } with
-    | (w, .completed none) => runCleanups rest w
-    | (w, .completed (some k)) => runCleanups rest { w with u := { w.u with lastExc := some k } }
-    | (w, .pending) => { w with u := { w.u with pos := .cleanup } }
+    let w := launch (.cleanup i) c (updU (fun u => { u with stack := rest }) w)
+    match statusOf c.beh with
+    | .completed r => runCleanups rest (updU (Chain.noteCleanup r) w)
+    | .pending => updU (fun u => { u with pos := .cleanup }) w
 
 def afterCleanup (r : Option Exc) (w : W) : W :=
-  let w : W := match r with
-    | some k => { w with u := { w.u with lastExc := some k } }
-    | none => w
+  let w := updU (Chain.noteCleanup r) w
   runCleanups w.u.stack w
 
-def noteMain (r : Option Exc) (w : W) : W :=
+def Chain.noteMain (r : Option Exc) (c : Chain) : Chain :=
   match r with
-  | some k => caught k w
-  | none => w
+  | some k => c.caught k
+  | none => c
 
 /-- `self.addCleanup(...)` for each, in order -/
-def register (cs : List Stage) (w : W) : W :=
-  cs.foldl (fun w c => { w with u := { w.u with stack := (w.u.nextCleanup, c) :: w.u.stack,
-                                                  nextCleanup := w.u.nextCleanup + 1 } }) w
+def Chain.register (cs : List Stage) (c : Chain) : Chain :=
+  cs.foldl (fun c s => { c with stack := (c.nextCleanup, s) :: c.stack, nextCleanup := c.nextCleanup + 1 }) c
 
 def afterTearDown (r : Option Exc) (w : W) : W :=
-  let w := noteMain r w
+  let w := updU (Chain.noteMain r) w
   runCleanups w.u.stack w
 
 def startTearDown (p : Prog) (w : W) : W :=
-  match launch .tearDown p.tearDown.stage (register p.tearDown.cleanups w) with
-  | (w, .completed r) => afterTearDown r w
-  | (w, .pending) => { w with u := { w.u with pos := .tearDown } }
+  let w := launch .tearDown p.tearDown.stage (updU (Chain.register p.tearDown.cleanups) w)
+  match statusOf p.tearDown.stage.beh with
+  | .completed r => afterTearDown r w
+  | .pending => updU (fun u => { u with pos := .tearDown }) w
 
-def afterBody (p : Prog) (r : Option Exc) (w : W) : W := startTearDown p (noteMain r w)
+def afterBody (p : Prog) (r : Option Exc) (w : W) : W := startTearDown p (updU (Chain.noteMain r) w)
 
 def startBody (p : Prog) (w : W) : W :=
-  match launch .body p.body.stage (register p.body.cleanups w) with
-  | (w, .completed r) => afterBody p r w
-  | (w, .pending) => { w with u := { w.u with pos := .body } }
+  let w := launch .body p.body.stage (updU (Chain.register p.body.cleanups) w)
+  match statusOf p.body.stage.beh with
+  | .completed r => afterBody p r w
+  | .pending => updU (fun u => { u with pos := .body }) w
 
 def afterSetUp (p : Prog) (r : Option Exc) (w : W) : W :=
   match r with
-  | some k => let w := caught k w; runCleanups w.u.stack w
+  | some k => let w := updU (Chain.caught k) w; runCleanups w.u.stack w
   | none => startBody p w
 
 def startSetUp (p : Prog) (w : W) : W :=
-  match launch .setUp p.setUp.stage (register p.setUp.cleanups w) with
-  | (w, .completed r) => afterSetUp p r w
-  | (w, .pending) => { w with u := { w.u with pos := .setUp } }
+  let w := launch .setUp p.setUp.stage (updU (Chain.register p.setUp.cleanups) w)
+  match statusOf p.setUp.stage.beh with
+  | .completed r => afterSetUp p r w
+  | .pending => updU (fun u => { u with pos := .setUp }) w
 
 /-- the callbacks of the pending stage's Deferred -/
 def resume (p : Prog) (r : Option Exc) (w : W) : W :=
@@ -259,47 +283,66 @@ def spinPhase (p : Prog) (w : W) : W :=
   let w := startSetUp p w
   spin (exec p) (fun _ => bound p) (bound p + 1) w
 
-def model (p : Prog) : Trace :=
+/-- observers while the test runs / how to put the suppressed ones back -/
+def duringObs (p : Prog) : List Nat × List Nat :=
   let obs0 := List.range p.nObs
-  -- the harness schedules the interrupts, then `case.run(result)`: startTest
-  let w : W := schedStops p.stops { u := { observers := obs0 } }
-  -- `_run_core`: log fixtures
   let (obs1, restore) := if p.suppress then removeAll obs0 else (obs0, [])
-  let captureId := p.nObs
-  let errorId := p.nObs + 1
-  let obs2 := if p.store then obs1 ++ [captureId] else obs1
-  let obs3 := obs2 ++ [errorId]
-  let w : W := { w with u := { w.u with observers := obs3 } }
-  -- `_blocking_run_deferred`: spinner.run
-  let w := spinPhase p w
-  let w : W := { w with running := false, stopPatched := false }
-  let result := getResult w.sp
-  -- `_clean`: obligatory iterations (broken Twisted), cancel what is left
-  let w := if p.broken then drain (exec p) (bound p) (drain (exec p) (bound p) w) else w
-  let junk := leftovers w
-  let leftover := (w.calls.filter isLeftover).length
-  let w : W := { w with calls := [], sels := [] }
-  -- back in `_blocking_run_deferred`
-  let (w, successful, unhandled, stopReq) : W × Bool × Nat × Bool := match result with
-    | .value b => (w, b == 1, w.u.dropped, false)
-    | .noresult => ({ w with u := { w.u with excs := w.u.excs ++ [.err] } }, false, 0, true)
-    | _ => ({ w with u := { w.u with excs := w.u.excs ++ [.err] } }, false, 0, false)
-  -- the error observer is removed; logged errors
-  let obs4 := obs3.erase errorId
-  let (w, successful) : W × Bool :=
-    if w.u.logged > 0 then ({ w with u := { w.u with excs := w.u.excs ++ List.replicate w.u.logged .err } }, false)
-    else (w, successful)
-  -- the log fixtures are cleaned up (capture observer removed, the suppressed ones re-added)
-  let obs5 := reAdd (if p.store then obs4.erase captureId else obs4) restore
-  -- unhandled errors in Deferreds, junk
-  let (w, successful) : W × Bool :=
-    if unhandled > 0 then ({ w with u := { w.u with excs := w.u.excs ++ List.replicate unhandled .err } }, false)
-    else (w, successful)
-  let (w, successful) : W × Bool :=
-    if !junk.isEmpty then ({ w with u := { w.u with excs := w.u.excs ++ [.err] } }, false) else (w, successful)
-  let evs := (if successful then [Ev.success] else []) ++ (if w.u.excs.isEmpty then [] else [outcomeOf w.u.excs])
-  { events := [.startTest] ++ evs ++ [.stopTest], stopRequested := stopReq, raised := false,
-    stages := w.u.stages, leftover := leftover, pending := w.calls.length, obsRestored := obs5 == obs0,
+  let obs2 := if p.store then obs1 ++ [p.nObs] else obs1      -- the capturing observer
+  (obs2 ++ [p.nObs + 1], restore)                              -- the error observer
+
+/-- observers after the fixtures have been cleaned up -/
+def afterObs (p : Prog) : List Nat :=
+  let (obs3, restore) := duringObs p
+  let obs4 := obs3.erase (p.nObs + 1)
+  reAdd (if p.store then obs4.erase p.nObs else obs4) restore
+
+/-- the harness has scheduled the interrupts; `case.run(result)` → `startTest`, `_run_core` installs the log
+fixtures -/
+def prepare (p : Prog) : W :=
+  schedStops p.stops { u := { observers := (duringObs p).1 } }
+
+/-- after `reactor.run()` returned (`finally:` of `Spinner.run`) -/
+def afterSpin (p : Prog) : W :=
+  { spinPhase p (prepare p) with running := false, stopPatched := false }
+
+/-- `_clean`'s obligatory iterations (`reactor.iterate(0)` twice for broken Twisted) -/
+def afterIter (p : Prog) : W :=
+  if p.broken then drain (exec p) (bound p) (drain (exec p) (bound p) (afterSpin p)) else afterSpin p
+
+structure Account where
+  excs : List Exc
+  successful : Bool
+  stopReq : Bool
+deriving Repr
+
+/-- `_blocking_run_deferred`'s exception handling and `_run_core`'s accounting: what `spinner.run` returned or
+raised, the chain's `_exceptions`, the unflushed logged errors, the unhandled errors in Deferreds, junk -/
+def account (result : Res) (excs : List Exc) (logged dropped : Nat) (junk : Bool) : Account :=
+  let (excs, successful, unhandled, stopReq) : List Exc × Bool × Nat × Bool := match result with
+    | .value b => (excs, b == 1, dropped, false)
+    | .noresult => (excs ++ [.err], false, 0, true)         -- NoResultError: reported, `result.stop()`
+    | _ => (excs ++ [.err], false, 0, false)                -- TimeoutError
+  let (excs, successful) : List Exc × Bool :=
+    if logged > 0 then (excs ++ List.replicate logged .err, false) else (excs, successful)
+  let (excs, successful) : List Exc × Bool :=
+    if unhandled > 0 then (excs ++ List.replicate unhandled .err, false) else (excs, successful)
+  let (excs, successful) : List Exc × Bool :=
+    if junk then (excs ++ [.err], false) else (excs, successful)
+  { excs := excs, successful := successful, stopReq := stopReq }
+
+/-- `addSuccess` iff successful; then `_run_prepared_result` reports the selected exception, if any -/
+def outcomeEvents (a : Account) : List Ev :=
+  (if a.successful then [Ev.success] else []) ++ (if a.excs.isEmpty then [] else [outcomeOf a.excs])
+
+def model (p : Prog) : Trace :=
+  let w := afterIter p
+  let junk := leftovers w                                    -- what `_clean` cancels and reports
+  let cleaned : W := { w with calls := [], sels := [] }
+  let a := account (getResult w.sp) w.u.excs w.u.logged w.u.dropped (!junk.isEmpty)
+  { events := [.startTest] ++ outcomeEvents a ++ [.stopTest], stopRequested := a.stopReq, raised := false,
+    stages := w.u.stages, leftover := (w.calls.filter isLeftover).length,
+    pending := cleaned.calls.length,
+    obsRestored := afterObs p == List.range p.nObs,
     realStops := w.u.realStops, finalTime := w.now }
 
 end TTV.AsyncRun
